@@ -599,9 +599,7 @@ func (d *decoder[T]) kSlice(f *decFnInfo, rv reflect.Value) {
 				rv, rvCanset = rvMakeSlice(rv, f.ti, rvlen, rvlen)
 				rvcap = rvlen
 				rvChanged = !rvCanset
-			} else { // rvlen1 > rvcap && !canSet
-				halt.errorStr("cannot decode into non-settable slice")
-			}
+			} // else rvlen1 > rvcap && !canSet: what does not fit is skipped in the loop below
 			if rvChanged && oldRvlenGtZero && rtelem0Mut {
 				rvCopySlice(rv, rv0, rtelem) // only copy up to length NOT cap i.e. rv0.Slice(0, rvcap)
 			}
@@ -658,6 +656,13 @@ func (d *decoder[T]) kSlice(f *decFnInfo, rv reflect.Value) {
 
 		// if indefinite, etc, then expand the slice if necessary
 		if j >= rvlen {
+			if !(rvCanset || rvChanged) {
+				// a slice that cannot be set (e.g. held in an interface) cannot be expanded: as documented
+				// for ErrorIfNoArrayExpand (and as the fast-path does), skip what does not fit
+				d.arrayCannotExpand(rvlen, j+1)
+				d.swallow()
+				continue
+			}
 
 			// expand the slice up to the cap.
 			// Note that we did, so we have to reset it later.
@@ -666,15 +671,10 @@ func (d *decoder[T]) kSlice(f *decFnInfo, rv reflect.Value) {
 				rvlen = rvcap
 				if rvCanset {
 					rvSetSliceLen(rv, rvlen)
-				} else if rvChanged {
+				} else { // rvChanged
 					rv = rvSlice(rv, rvlen)
-				} else {
-					halt.onerror(errExpandSliceCannotChange)
 				}
 			} else {
-				if !(rvCanset || rvChanged) {
-					halt.onerror(errExpandSliceCannotChange)
-				}
 				rv, rvcap, rvCanset = rvGrowSlice(rv, f.ti, rvcap, 1)
 				// note: 1 requested is hint/minimum - new capacity with more space
 				rvlen = rvcap
